@@ -5,6 +5,9 @@ Correspondence: model `chunks`/`ex.block` vs the real `.chunks` and per-block va
 Search: every output key of the real materialized graph is executed and its np.shape is
 compared with `.chunks` at that block index (optimize on/off), on programs biased to
 layout-changing rewrites.
+Extension streams (harness/props_ext/c03_blocks.py): multi-input map_blocks / blockwise(align_arrays=False) over
+inputs of equal block count and different block sizes; every operation taking an explicit dtype= over >= 3 blocks
+(every block's dtype, also after the first block is sliced away).
 """
 from __future__ import annotations
 
@@ -86,13 +89,34 @@ def run(ctx, replay=None):
     ctx.rule = (
         "seeded random programs biased to layout-changing rewrites (sliding-window reductions, slices, rechunks, "
         "concatenate, reductions); every output block of the real graph is executed (optimize on and off); "
-        "evaluations = blocks checked; distinct = (op multiset, optimize flag, multi-block)"
+        "evaluations = blocks checked; distinct = (op multiset, optimize flag, multi-block).  Plus (props_ext/c03_blocks): "
+        "multi-input map_blocks / blockwise(align_arrays=False) over inputs of equal block count and different block sizes "
+        "(implicit/explicit chunks=, drop_axis, new_axis, adjust_chunks, new_axes, block_id, inferred dtype) with an honest "
+        "shape-only block function and a brute-force positional oracle; every public op taking dtype= (cumulative ops both "
+        "methods, reductions, astype, ufuncs, creation, einsum/trace/cov, mixed-dtype products, map_blocks/map_overlap/"
+        "apply_gufunc/apply_along_axis/reduction) over >= 3 blocks, whole and after tail-slice/.blocks/take/rechunk: each block's "
+        "dtype and shape vs advertised; distinct = (stream, api/family, fn, method, narrowing/widening, consumer)"
     )
+    if replay is not None and replay.get("case", {}).get("reshape"):  # harness/props_ext/c01_reshape.py
+        from harness.props_ext import c01_reshape
+        return c01_reshape.replay(ctx, replay["case"])
+    if replay is not None and (replay.get("case", {}).get("mbshape") or replay.get("case", {}).get("xdtype")):  # harness/props_ext/c03_blocks.py
+        from harness.props_ext import c03_blocks
+        return c03_blocks.replay(ctx, replay["case"])
     if replay is not None:
         prog = replay["case"]["program"]
         check_program(ctx, prog, P.run_np(prog)[prog[-1]["out"]])
         return
+    import time as _time
+
+    _t = [_time.time()]
+
+    def lap(name):
+        ctx.notes["seconds." + name] = round(_time.time() - _t[0], 1)
+        _t[0] = _time.time()
+
     PC.probe_known(ctx, KNOWN)
+    lap("probe_known")
     N = ctx.scale(700, 4000)
     corr = []
     for i in range(N):
@@ -110,10 +134,22 @@ def run(ctx, replay=None):
     for i in range(ctx.scale(500, 3000)):
         prog, g = P.gen_program(rng, depth=rng.randint(2, ctx.scale(6, 9)), ops=P.MINI_OPS, zero_axes=0.0, basic_only=True)
         corr.append(prog)
+    lap("programs")
     block_correspondence(ctx, corr)
+    lap("block_correspondence")
     dtype_stream(ctx)
+    lap("dtype_stream")
     from harness.props_ext import c03_expr2  # phase 3: second-layer model (Props/C03Ext.lean; ex2.block)
     c03_expr2.run_ext(ctx, corr)
+    lap("expr2")
+    # every output block (shape AND dtype) of multi-input map_blocks / blockwise(align_arrays=False) with mismatched block
+    # sizes, and of every operation taking an explicit dtype= over >= 3 blocks (also with the first block sliced away)
+    from harness.props_ext import c03_blocks
+    c03_blocks.run(ctx)
+    lap("c03_blocks")
+    from harness.props_ext import c01_reshape  # reshape planner: per-block shapes vs advertised chunks (Props/C03Reshape.lean; rsh.*)
+    c01_reshape.run(ctx)
+    lap("reshape")
 
 
 def dtype_stream(ctx):
